@@ -412,10 +412,10 @@ func (te *TypeEnv) rangeFact(v Term, t types.Type) Term {
 			return and(le(bigLit(lo), v), le(v, bigLit(hi)))
 		}
 		if u.Info()&types.IsString != 0 {
-			return and(le(intLit(0), stLen(v)), le(intLit(0), stPtr(v)))
+			return and(le(intLit(0), stLen(v)), le(intLit(0), stPtr(v)), le(stLen(v), bigLit(new(big.Int).Sub(pow2(63), big.NewInt(1)))))
 		}
 	case *types.Slice:
-		return and(le(intLit(0), slLen(v)), le(slLen(v), slCap(v)), le(intLit(0), slPtr(v)),
+		return and(le(intLit(0), slLen(v)), le(slLen(v), slCap(v)), le(intLit(0), slPtr(v)), le(slCap(v), bigLit(new(big.Int).Sub(pow2(63), big.NewInt(1)))),
 			implies(eq(slPtr(v), intLit(0)), eq(slCap(v), intLit(0))))
 	case *types.Pointer, *types.Map, *types.Chan, *types.Signature:
 		return le(intLit(0), v)
